@@ -201,7 +201,7 @@ fn exec(sh: &Shared, stack: &mut Vec<LocalH>, i: usize, op: &Op) {
             }
             span!(slot).add_event(ev);
         }
-        Op::Finish { slot } => slots[*slot as usize] = SlotV::Empty,
+        Op::Finish { slot, .. } => slots[*slot as usize] = SlotV::Empty,
         Op::Cancel { slot } => span!(slot).cancel(),
         Op::Elapsed { slot } => {
             if let Some(d) = span!(slot).elapsed() {
